@@ -796,10 +796,38 @@ def _is_first_input_passthrough(node: ir.Node) -> bool:
     if (getattr(node, "domain", "") or "") != "":
         return False
     if node.op_type in ELEMENTWISE_BINARY_OPS:
-        return all(
-            iv is None or _is_scalar_const_value(iv) for iv in _node_inputs(node)[1:]
-        )
+        inputs = _node_inputs(node)
+        if not all(iv is None or _is_scalar_const_value(iv) for iv in inputs[1:]):
+            return False
+        # A size-1 constant of higher rank than the walked operand still
+        # broadcasts: (6,) with a (1, 1, 1) constant gives (1, 1, 6).
+        first_dims = _shape_dims_seq(inputs[0].shape) if inputs and inputs[0] else None
+        side_rank = _max_side_const_rank(node)
+        if side_rank is None:
+            return False
+        if side_rank > 0 and (first_dims is None or side_rank > len(first_dims)):
+            return False
     return True
+
+
+def _max_side_const_rank(node: ir.Node) -> Optional[int]:
+    """Largest rank among the broadcasting side operands (None: unknown)."""
+    if node.op_type not in ELEMENTWISE_BINARY_OPS:
+        # e.g. CastLike: the second operand only supplies a dtype.
+        return 0
+    rank = 0
+    for iv in _node_inputs(node)[1:]:
+        if iv is None:
+            continue
+        arr = _to_numpy_from_any(iv)
+        if arr is not None:
+            rank = max(rank, int(arr.ndim))
+            continue
+        dims = _shape_dims_seq(iv.shape)
+        if dims is None:
+            return None
+        rank = max(rank, len(dims))
+    return rank
 
 
 def _is_elementwise_node(node: ir.Node) -> bool:
@@ -1906,6 +1934,16 @@ def remove_redundant_reshape_pairs_ir(graph: ir.Graph) -> None:
                 continue
             dst = _node_output(T2)
             if not _shapes_compatible(src, dst):
+                i += 1
+                continue
+            # After the fold the chain runs on the source's rank: constant side
+            # operands must not out-rank it either.
+            src_dims = _shape_dims_seq(src.shape)
+            side_ranks = [_max_side_const_rank(n) for n in allowed_nodes]
+            if any(
+                r is None or (r > 0 and (src_dims is None or r > len(src_dims)))
+                for r in side_ranks
+            ):
                 i += 1
                 continue
             allowed_fwd = list(reversed(allowed_nodes))
